@@ -1,5 +1,4 @@
-import Amgcl.Proofs.AggrGraph
-import Amgcl.Proofs.TentativeProlongation
+import Amgcl.Proofs.Transfer
 /-!
 # C04 — interpolation is exact on the near-null space; aggregates partition the grid
 
@@ -24,19 +23,22 @@ theorem aggregates_partition (G : SGraph) (count : Nat) (id : Array Int)
       (G.hasStrong i = false → id.getD i 0 = -2) ∧
       (G.hasStrong i = true → 0 ≤ id.getD i 0 ∧ id.getD i 0 < (count : Int))) ∧
     (∀ a, a < count → ∃ i, i < G.size ∧ id.getD i 0 = (a : Int)) := by
-  obtain ⟨hpos, heq⟩ := aggregatesOfGraph_ok G count id h
-  obtain ⟨hsz, hsp⟩ := aggregateIds_spec G
-  obtain ⟨h1, h2, h3, h4, _⟩ := renumber_partition _ hpos _ (idsOK_aggregateIds G)
-  have hc : count = (renumber (aggregateIds G).1 (aggregateIds G).2).1 := congrArg Prod.fst heq
-  have hi : id = (renumber (aggregateIds G).1 (aggregateIds G).2).2 := congrArg Prod.snd heq
-  subst hc hi
-  rw [hsz] at h1 h2 h3 h4
-  refine ⟨h1, fun i hi => ⟨fun hs => h2 i hi ((hsp i hi).1 hs), fun hs => h3 i hi ((hsp i hi).2 hs).1⟩, h4⟩
+  exact aggregates_partition_graph G count id h
+
+-- non-vacuity: a path 0-1-2-3 plus node 4 without strong entry (two aggregates, node 4 removed) …
+example : aggregatesOfGraph #[[(0,false),(1,true)],[(0,true),(1,false),(2,true)],[(1,true),(2,false),(3,true)],
+    [(2,true),(3,false)],[(4,false),(0,false)]] = .ok (2, #[0,0,1,1,-2]) := by decide +kernel
+-- … and a non-symmetric flag array on which the first aggregate vanishes (seed 0 and its neighbour are claimed by
+-- seed 2), so that the renumbering branch runs: before it `(count, id) = (2, [1,1,1])`
+example : aggregateIds #[[(1,true)],[(0,true)],[(0,true),(1,true)]] = (2, #[1,1,1]) ∧
+    aggregatesOfGraph #[[(1,true)],[(0,true)],[(0,true),(1,true)]] = .ok (1, #[0,0,0]) := by decide +kernel
 
 /-- the only other outcome is `empty_level`, thrown exactly when no row has a flagged entry -/
 theorem aggregates_empty_level_iff (G : SGraph) :
     aggregatesOfGraph G = .emptyLevel ↔ ∀ i, i < G.size → G.hasStrong i = false :=
   aggregatesOfGraph_emptyLevel_iff G
+
+example : aggregatesOfGraph #[[(0,false),(1,false)],[(1,false)]] = .emptyLevel := by decide +kernel
 
 /-- **Coarsening strictly reduces the size** (termination argument of the hierarchy build): if no diagonal entry
 is flagged strong — which `strongConnections` guarantees through its `c != i` — the number of aggregates is
@@ -45,53 +47,44 @@ theorem count_lt_n_graph (G : SGraph) (hwf : G.WF) (hod : G.OffDiag) (count : Na
     (h : aggregatesOfGraph G = .ok (count, id)) : count < G.size :=
   count_lt_size G hwf hod count id h
 
+-- non-vacuity: the strength graph of a matrix satisfies both hypotheses
+example : (zipGraph (⟨3, #[[(0,2),(1,-1)],[(0,-1),(1,2),(2,-1)],[(1,-1),(2,2)]]⟩ : CRS Int)
+      (strongConnections 0 ⟨3, #[[(0,2),(1,-1)],[(0,-1),(1,2),(2,-1)],[(1,-1),(2,2)]]⟩)).WF ∧
+    (zipGraph (⟨3, #[[(0,2),(1,-1)],[(0,-1),(1,2),(2,-1)],[(1,-1),(2,2)]]⟩ : CRS Int)
+      (strongConnections 0 ⟨3, #[[(0,2),(1,-1)],[(0,-1),(1,2),(2,-1)],[(1,-1),(2,2)]]⟩)).OffDiag :=
+  ⟨zipGraph_wf _ (by decide) rfl _, strongGraph_offDiag _ _⟩
+
 section matrix
 variable {K : Type} [Mul K] [Zero K] [LT K] [DecidableLT K]
 
 /-- what `plain_aggregates` does for a matrix: the flags are `(c ≠ i) ∧ epsSq·a_ii·a_cc < a_ic²` entry by entry
-(in exactly this form), and `(count, id)` partition the rows as in `aggregates_partition`. -/
+(in exactly this form: `strongFlag epsSq A i cv = decide (cv.1 ≠ i) && decide (epsSq * a_ii * a_cc < cv.2 * cv.2)`
+with `a_ii = (diagonal A)[i]`), and `(count, id)` partition the rows as in `aggregates_partition`. -/
 theorem plain_aggregates_partition (epsSq : K) (A : CRS K) (agg : Aggregates)
     (h : plainAggregates epsSq A = .ok agg) :
     agg.strong = strongConnections epsSq A ∧
-    (∀ i, i < A.nrows → agg.strong.getD i [] =
-      (A.row i).map (fun cv => decide (cv.1 ≠ i) &&
-        decide (epsSq * (diagonal A).getD i 0 * (diagonal A).getD cv.1 0 < cv.2 * cv.2))) ∧
+    (∀ i, i < A.nrows → agg.strong.getD i [] = (A.row i).map (strongFlag epsSq A i)) ∧
     agg.id.size = A.nrows ∧
     (∀ i, i < A.nrows →
       ((agg.strong.getD i []).any id = false → agg.id.getD i 0 = -2) ∧
       ((agg.strong.getD i []).any id = true → 0 ≤ agg.id.getD i 0 ∧ agg.id.getD i 0 < (agg.count : Int))) ∧
     (∀ a, a < agg.count → ∃ i, i < A.nrows ∧ agg.id.getD i 0 = (a : Int)) := by
-  unfold plainAggregates at h
-  simp only at h
-  split at h
-  · rename_i ci hci
-    injection h with h
-    subst h
-    simp only
-    obtain ⟨h1, h2, h3⟩ := aggregates_partition _ ci.1 ci.2 hci
-    rw [zipGraph_size] at h1 h2 h3
-    refine ⟨trivial, fun i hi => ?_, h1, fun i hi => ?_, h3⟩
-    · rw [strongConnections_getD epsSq A i hi]; rfl
-    · rw [← strongGraph_hasStrong epsSq A i hi]; exact h2 i hi
-  · exact absurd h (by simp)
-  · exact absurd h (by simp)
+  exact plainAggregates_spec epsSq A agg h
 
 /-- `count < n` for every square well-formed matrix and every `eps_strong` -/
 theorem count_lt_n (epsSq : K) (A : CRS K) (hA : A.WF) (hsq : A.ncols = A.nrows) (agg : Aggregates)
     (h : plainAggregates epsSq A = .ok agg) : agg.count < A.nrows := by
-  unfold plainAggregates at h
-  simp only at h
-  split at h
-  · rename_i ci hci
-    injection h with h
-    subst h
-    simp only
-    have := count_lt_size _ (zipGraph_wf A hA hsq _) (strongGraph_offDiag epsSq A) ci.1 ci.2 hci
-    rwa [zipGraph_size] at this
-  · exact absurd h (by simp)
-  · exact absurd h (by simp)
+  exact plainAggregates_count_lt epsSq A hA hsq agg h
 
 end matrix
+
+-- non-vacuity (1D Laplacian, n = 3, `eps_squared = 0`): one aggregate
+example : plainAggregates (0 : Int) ⟨3, #[[(0,2),(1,-1)],[(0,-1),(1,2),(2,-1)],[(1,-1),(2,2)]]⟩ =
+    .ok ⟨1, #[[false,true],[true,false,true],[true,false]], #[0,0,0]⟩ := by decide +kernel
+-- a row with only positive off-diagonal entries and a weak connection (`eps_squared = 1/4`, a_02² = 1 ≤ 1/4·2·4)
+example : plainAggregates (1/4 : ℚ) ⟨3, #[[(0,2),(1,2),(2,1)],[(0,2),(1,2)],[(0,1),(2,4)]]⟩ =
+    .ok ⟨1, #[[false,true,false],[true,false],[false,false]], #[0,0,-2]⟩ ∧
+    (⟨3, #[[(0,2),(1,2),(2,1)],[(0,2),(1,2)],[(0,1),(2,4)]]⟩ : CRS ℚ).WF := by decide +kernel
 
 /-! ## Tentative prolongation (no near-null space supplied: the constant vector) -/
 
@@ -129,15 +122,140 @@ theorem ptent_columns (n naggr : Nat) (id : Array Int) :
   · apply sum_eq_zero
     intro i _
     rcases hdis i c c' hne with h | h <;> rw [h] <;> simp
-  · simp only [ptent_get]
-    by_cases h0 : id.getD i aggrRemoved ≥ 0
-    · rw [if_pos h0, sum_eq_single_of_mem (id.getD i aggrRemoved).toNat (mem_range.2 (by omega))]
-      · rw [if_pos ⟨hi, by omega⟩]
-      · intro c _ hc; rw [if_neg]; rintro ⟨_, h⟩; exact hc (by omega)
-    · rw [if_neg h0]
-      apply sum_eq_zero
-      intro c _; rw [if_neg]; rintro ⟨_, h⟩; omega
+  · exact ptent_rowsum n naggr id i hi hlt
 
 end ptent
+
+example : (tentativeProlongation 4 2 #[1,-2,0,1] : CRS Int).rows = #[[(1,1)],[],[(0,1)],[(1,1)]] := by decide +kernel
+
+/-! ## Smoothed aggregation -/
+
+section smoothed
+variable {K : Type} [Field K] [DecidableEq K]
+
+/-- **`P = (I − ω D_F⁻¹ A_F) · P_tent`, row by row**, for every matrix, every flag array `S` and every well-formed
+`P_tent`: entry `(i, c)` of the returned `P` is the sum over the stored entries `(j, a_ij)` of row `i` of
+`m_ij · P_tent[j, c]` with
+* `m_ij = 1 − ω` for a diagonal entry (`(I − ω D_F⁻¹ A_F)_ii = 1 − ω` because `D_F = diag A_F`),
+* `m_ij = −ω · a_ij / d_i` for a strong off-diagonal entry, where `d_i` is the filtered diagonal **as the code
+  computes it** — `a_ii` plus the *weak* entries of the row (second conjunct) —
+  and, explicitly, `m_ij = 0` when `d_i = 0` (the `if (!math::is_zero(dia))` guard of l.202),
+* `m_ij = 0` for a weak off-diagonal entry;
+and `P` has the shape of `P_tent`.  The marker array inherited from earlier rows has no influence. -/
+theorem smoothed_eq_formula (omega : K) (A : CRS K) (S : Array (List Bool)) (Pt : CRS K) (hPt : Pt.WF)
+    (i : Nat) (hi : i < A.nrows) (c : Nat) :
+    (smoothProlongation omega A S Pt).get i c =
+      (((A.row i).zip (S.getD i [])).map (fun cs =>
+        (if cs.1.1 = i then 1 - omega
+         else if cs.2 = true then
+           (if filteredDia i (A.row i) (S.getD i []) = 0 then 0
+            else -omega / filteredDia i (A.row i) (S.getD i [])) * cs.1.2
+         else 0) * Pt.get cs.1.1 c)).sum ∧
+    filteredDia i (A.row i) (S.getD i []) =
+      (((A.row i).zip (S.getD i [])).map (fun cs => if cs.1.1 = i ∨ cs.2 = false then cs.1.2 else 0)).sum ∧
+    (smoothProlongation omega A S Pt).nrows = A.nrows ∧ (smoothProlongation omega A S Pt).ncols = Pt.ncols := by
+  refine ⟨?_, filteredDia_eq_sum _ _ _, smoothProlongation_shape omega A S Pt hPt⟩
+  rw [smoothProlongation_get omega A S Pt hPt i hi c]
+  congr 1
+  apply List.map_congr_left
+  intro cs _
+  unfold saCoef scaledDia
+  generalize filteredDia i (A.row i) (S.getD i []) = dia
+  congr 1
+  by_cases h1 : cs.1.1 = i
+  · rw [if_pos h1, if_pos h1]
+  · rw [if_neg h1, if_neg h1]
+    by_cases h2 : cs.2 = true
+    · rw [if_pos h2, if_pos h2]
+      by_cases hd : dia = 0
+      · rw [if_pos hd, if_pos hd, hd]
+      · rw [if_neg hd, if_neg hd]; congr 1; field_simp
+    · rw [if_neg h2, if_neg h2]
+
+/-- what `smoothed_aggregation::transfer_operators` returns is that smoothing applied to the aggregates' flags and
+their tentative prolongation, with `ω = relax · omegaScale` (`omegaScale` = the `double` constant `2.0/3`) unless the
+spectral radius is estimated, in which case `ω = relax · (omegaScale / ρ)` with the scaled Gershgorin bound `ρ`
+(`omegaScale` = the `double` constant `4.0/3`). -/
+theorem sa_transfer_eq [LT K] [DecidableLT K] (norm : K → K) (prm : SAParams K) (A : CRS K) (T : Transfer K)
+    (h : smoothedAggregationTransfer norm prm A = .ok T) :
+    ∃ aggr, pointwiseAggregates norm prm.epsSq prm.blockSize prm.minAggregate A = .ok aggr ∧
+      T.P = smoothProlongation (saOmega norm prm A) A aggr.strong
+        (tentativeProlongation A.nrows aggr.count aggr.id) ∧
+      (prm.estimateSpectralRadius = false → saOmega norm prm A = prm.relax * prm.omegaScale) ∧
+      (prm.estimateSpectralRadius = true →
+        saOmega norm prm A = prm.relax * (prm.omegaScale / gershgorinScaled norm A)) := by
+  obtain ⟨aggr, h1, h2⟩ := smoothedAggregationTransfer_ok norm prm A T h
+  refine ⟨aggr, h1, h2, fun he => ?_, fun he => ?_⟩ <;> simp [saOmega, he]
+
+/-- **Row sum one.**  `A` symmetric as stored (every stored `(i,j,v)` has its mirror `(j,i,v)`), square and well
+formed; row `i` has exactly one stored diagonal entry, zero row sum, a strong neighbour, and a non-zero filtered
+diagonal (otherwise `D_F⁻¹` does not exist and the code's guard makes the row `(1−ω)·P_tent[i,:]`).  Then row `i`
+of the smoothed prolongation built on the plain aggregates sums to one — for every `ω`, every `eps_strong`, and
+every order relation `<` used in the strength test. -/
+theorem sa_rowsum_one [LT K] [DecidableLT K] (epsSq omega : K) (A : CRS K) (hA : A.WF) (hsq : A.ncols = A.nrows)
+    (hsym : SymmStored A) (agg : Aggregates) (h : plainAggregates epsSq A = .ok agg)
+    (i : Nat) (hi : i < A.nrows)
+    (hdiag1 : (A.row i).countP (fun cv => cv.1 == i) = 1)
+    (hrs : ((A.row i).map (·.2)).sum = 0)
+    (hstrong : (agg.strong.getD i []).any id = true)
+    (hdia : filteredDia i (A.row i) (agg.strong.getD i []) ≠ 0) :
+    ∑ c ∈ Finset.range agg.count,
+      (smoothProlongation omega A agg.strong (tentativeProlongation A.nrows agg.count agg.id)).get i c = 1 :=
+  sa_rowsum_one_aux epsSq omega A hA hsq hsym agg h i hi hdiag1 hrs hstrong hdia
+
+end smoothed
+
+-- non-vacuity of `smoothed_eq_formula` / `sa_transfer_eq`: a well-formed `P_tent`, a successful transfer
+example : (tentativeProlongation 3 1 #[0,0,0] : CRS ℚ).WF := by decide +kernel
+example : pointwiseAggregates (fun x : ℚ => if x < 0 then -x else x) (1/100) 1 0
+    ⟨3, #[[(0,1),(1,-1)],[(0,-1),(1,2),(2,-1)],[(1,-1),(2,1)]]⟩ =
+    .ok ⟨1, #[[false,true],[true,false,true],[true,false]], #[0,0,0]⟩ := by decide +kernel
+-- non-vacuity of `sa_rowsum_one` (Neumann 1D Laplacian, every row has zero sum; row 1): all hypotheses hold
+example :
+    let A : CRS ℚ := ⟨3, #[[(0,1),(1,-1)],[(0,-1),(1,2),(2,-1)],[(1,-1),(2,1)]]⟩
+    let agg : Aggregates := ⟨1, #[[false,true],[true,false,true],[true,false]], #[0,0,0]⟩
+    A.WF ∧ A.ncols = A.nrows ∧ symmStoredb A = true ∧ plainAggregates (1/100 : ℚ) A = .ok agg ∧
+    (A.row 1).countP (fun cv => cv.1 == 1) = 1 ∧ ((A.row 1).map (·.2)).sum = 0 ∧
+    (agg.strong.getD 1 []).any id = true ∧ filteredDia 1 (A.row 1) (agg.strong.getD 1 []) ≠ 0 := by
+  decide +kernel
+
+/-! ## Pointwise (block) aggregation -/
+
+section pointwise
+variable {K : Type} [Mul K] [Zero K] [LT K] [DecidableLT K]
+
+/-- `block_size = 1` (and `min_aggregate ≤ 1`, i.e. at most one near-null-space vector): `pointwise_aggregates` *is*
+`plain_aggregates`, so all theorems above apply to it. -/
+theorem pointwise_block_one (norm : K → K) (epsSq : K) (m : Nat) (hm : m ≤ 1) (A : CRS K) :
+    pointwiseAggregates norm epsSq 1 m A = plainAggregates epsSq A :=
+  pointwise_block1 norm epsSq m hm A
+
+/-- **The unknowns of one grid node travel together** (`_partial`, see below).  With `block_size = b > 1` the result
+of `pointwise_aggregates` is the lift of the plain aggregates `pw` of the reduced matrix
+`Ap = pointwise_matrix(A, b)`: `count = b · pw.count` and `id[ip·b + k] = b · pw.id[ip] + k` — so scalar row `ip·b+k`
+is in aggregate `b·a + k` iff node `ip` is in node-aggregate `a`, a removed node has only negative ids, and by
+`plain_aggregates_partition` applied to `Ap` the lifted aggregates partition the rows with a strong node
+connection, non-empty and contiguously numbered.
+
+Full statement of the property clause (not proved in Lean, checked on every explored input by the Kronecker-lift
+oracle of `harness/h_coarsening.cpp`): for `A` with sorted rows, `pointwiseMatrix norm (A ⊗ I_b) b = |A|`
+(entrywise `norm`), hence `pointwiseAggregates (A ⊗ I_b) b = lift_b (plainAggregates |A|)` including the expanded
+strength flags.  Missing: the induction over the `while(!done)` rounds of `pointwise_matrix` on a Kronecker product
+and the `takeWhile/dropWhile` walk of the flag expansion. -/
+theorem pointwise_lift_partial (norm : K → K) (epsSq : K) (b m : Nat) (hb : b ≠ 1) (hm : m ≤ 1) (A : CRS K)
+    (agg : Aggregates) (h : pointwiseAggregates norm epsSq b m A = .ok agg) :
+    ∃ Ap pw, pointwiseMatrix norm A b = .ok Ap ∧ plainAggregates epsSq Ap = .ok pw ∧
+      agg.count = pw.count * b ∧ agg.id.size = Ap.nrows * b ∧
+      ∀ ia, ia < Ap.nrows * b →
+        agg.id.getD ia 0 = (b : Int) * pw.id.getD (ia / b) 0 + ((ia % b : Nat) : Int) :=
+  pointwise_blocks norm epsSq b m hb hm A agg h
+
+end pointwise
+
+-- non-vacuity of `pointwise_lift_partial`: (1D Laplacian, n = 3) ⊗ I₂ with block_size 2 — the lift of `[0,0,0]`
+example : pointwiseAggregates (fun x : Int => if x < 0 then -x else x) 0 2 0
+    ⟨6, #[[(0,2),(2,-1)],[(1,2),(3,-1)],[(0,-1),(2,2),(4,-1)],[(1,-1),(3,2),(5,-1)],[(2,-1),(4,2)],[(3,-1),(5,2)]]⟩ =
+    .ok ⟨2, #[[false,true],[false,true],[true,false,true],[true,false,true],[true,false],[true,false]],
+      #[0,1,0,1,0,1]⟩ := by decide +kernel
 
 end Amgcl.C04
